@@ -761,6 +761,8 @@ def run(ctx):
                 role = re.sub(r"\b\w*pos\w*\b", "POS", role)
                 role = re.sub(r"\b\w*key\w*\b", "KEY", role)
                 role = re.sub(r"field:\w+\((\w+)\)", r"\1", role)
+                # (by elimination: in `(k + pos) ^ size` the operand of the sum that is not the position is the key, whatever it is called)
+                role = re.sub(r"add\((\w+), (\w+)\)", lambda m_: "add(%s, %s)" % tuple(("KEY" if (g_ not in ("POS", "SIZE", "KEY") and "POS" in m_.groups()) else g_) for g_ in m_.groups()), role)
                 role = re.sub(r"add\((\w+), (\w+)\)", lambda m_: "add(%s)" % ", ".join(sorted(m_.groups())), role)
                 shapes[path] = (role, x["ln"], f)
                 break
